@@ -161,9 +161,10 @@ fn wide_case(last_len: usize, h1: usize, h2: usize, dup: usize, place: usize, sw
     let p_main = payload(1, 3, 0, size);
     let mut order: Vec<usize> = (0..n).filter(|&k| k != h1 && k != h2).collect();
     let pos = order.iter().position(|&k| k == dup).unwrap();
-    let at = match place { 0 => pos + 1, 1 => (pos + 2).min(order.len()), _ => order.len() };
-    order.insert(at, dup);
-    if swap { order.push(h2); order.push(h1); } else { order.push(h1); order.push(h2); }
+    // place 3: the second copy arrives between the two held-back fragments (after the first of them has filled its gap)
+    if place < 3 { let at = match place { 0 => pos + 1, 1 => (pos + 2).min(order.len()), _ => order.len() }; order.insert(at, dup); }
+    let (a, b) = if swap { (h2, h1) } else { (h1, h2) };
+    order.push(a); if place == 3 { order.push(dup); } order.push(b);
     let r = guarded(|| {
         set_time_ms(0); set_fuel(4_000_000);
         let frags: Vec<Datagram> = (0..n).map(|k| frag(0x000F_FFFE, 3, k, n, &p_main)).collect();
@@ -197,14 +198,14 @@ pub fn wide_units(quick: bool) -> Vec<Unit> {
         for (ui, &h1) in marks.iter().enumerate() {
             let marks = marks.clone();
             units.push(Box::new(move |acc: &mut Acc| {
-                for &h2 in marks.iter().filter(|&&m| m > h1) { for &dup in marks.iter() { for place in 0..3usize { for swap in [false, true] {
+                for &h2 in marks.iter().filter(|&&m| m > h1) { for &dup in marks.iter() { for place in 0..4usize { for swap in [false, true] {
                     if dup == h1 || dup == h2 { continue; }
                     let (case, v, h) = wide_case(last_len, h1, h2, dup, place, swap);
                     acc.evals += 1; acc.transitions += 131; acc.outcomes.insert(h ^ (ui as u64) << 32);
                     if h == 0xDEAD { acc.panics += 1; }
                     if let Some(v) = v { acc.violation(case, v); }
                 } } } }
-                if ui == 2 { acc.sample(format!("receiver: 130 fragments (last {} B), fragment {} and each later marked fragment held back, each other marked fragment duplicated at 3 places", last_len, h1)); }
+                if ui == 2 { acc.sample(format!("receiver: 130 fragments (last {} B), fragment {} and each later marked fragment held back, each other marked fragment duplicated at 4 places", last_len, h1)); }
             }));
         }
     }
